@@ -139,8 +139,7 @@ Hypothesis Hnd : NoDup (map cs_tok cs).
 Hypothesis Hpriv : private cs = true.
 Hypothesis Hcalls : forall c cl, In c cs -> In cl (cs_prog c) -> (c_res cl < length rs)%nat /\ 1 <= c_len cl.
 Hypothesis Hnodef : forall c cl, In c cs -> In cl (cs_prog c) -> cs_co c = true ->
-  rs_kind (nth (c_res cl) rs rsdummy) <> KClosed
-  /\ (classify (rs_kind (nth (c_res cl) rs rsdummy)) (c_op cl) = CRead -> rs_timed (nth (c_res cl) rs rsdummy) = false).
+  classify (rs_kind (nth (c_res cl) rs rsdummy)) (c_op cl) = CRead -> rs_timed (nth (c_res cl) rs rsdummy) = false.
 
 Notation Inv := (Inv rs cs).
 Notation cinv := (cinv rs).
@@ -234,16 +233,6 @@ Proof.
     unfold submit. rewrite Htab.
     set (seq := S (k_seq k)).
     assert (Hco : k_co k = cs_co c) by apply (ci_co _ _ _ _ _ _ CI).
-    assert (Hnotclosed : k_co k && is_closed st cl = false).
-    { destruct (k_co k) eqn:Eco; auto. cbn [andb]. unfold is_closed.
-      rewrite <- (i_rlen _ _ _ _ _ _ HI) in Hrlt.
-      destruct (nth_error_lt_some (s_res st) (c_res cl) Hrlt) as [x Hx].
-      assert (Hrlt' : (c_res cl < length rs)%nat) by (rewrite <- (i_rlen _ _ _ _ _ _ HI); auto).
-      destruct (nth_error_lt_some rs (c_res cl) Hrlt') as [sp Hsp].
-      destruct (i_res _ _ _ _ _ _ HI _ _ _ Hsp Hx) as [Hk1 _].
-      rewrite (nth_error_nth _ _ _ rdummy Hx), Hk1.
-      destruct (Hnodef c cl Hcin Hin) as [Hn _]; [congruence|].
-      rewrite (nth_error_nth _ _ _ rsdummy Hsp) in Hn. destruct (rs_kind sp); auto. congruence. }
     (* facts shared by both branches, about the new record [kn] with status [stn] *)
     assert (Common : forall stn, (stn = SHeld cl \/ stn = SWait cl) ->
       let kn := {| k_co := k_co k; k_tok := k_tok k; k_prog := rest'; k_stat := stn; k_out := k_out k;
@@ -299,7 +288,7 @@ Proof.
       * intros r sp x Hsp Hx Hrd Heof. rewrite C5. apply (i_suff _ _ _ _ _ _ HI r sp x); auto.
     + (* handed to the kernel *)
       destruct (Common (SWait cl) (or_intror eq_refl)) as [C1 [C2 [C3 [C4 [C5 C6]]]]].
-      rewrite Hnotclosed. unfold push.
+      unfold push.
       constructor; cbn [set_caller set_callers set_table set_inflight s_dead s_div s_callers s_res s_table s_inflight]; auto.
       * apply (i_alive _ _ _ _ _ _ HI).
       * apply (i_nodiv _ _ _ _ _ _ HI).
@@ -398,7 +387,7 @@ Proof.
     + unfold die, set_caller, set_callers; cbn. rewrite upd_upd. reflexivity.
     + destruct (c_hold cl && negb (k_co k)).
       * unfold set_caller, set_callers, set_table; cbn. rewrite upd_upd. reflexivity.
-      * unfold is_closed, push, die, add_tag, set_inflight, set_caller, set_callers, set_table; cbn.
+      * unfold push, set_inflight, set_caller, set_callers, set_table; cbn.
         rewrite upd_upd. reflexivity.
 Qed.
 
@@ -417,8 +406,7 @@ Hypothesis Hnd : NoDup (map cs_tok cs).
 Hypothesis Hpriv : private cs = true.
 Hypothesis Hcalls : forall c cl, In c cs -> In cl (cs_prog c) -> (c_res cl < length rs)%nat /\ 1 <= c_len cl.
 Hypothesis Hnodef : forall c cl, In c cs -> In cl (cs_prog c) -> cs_co c = true ->
-  rs_kind (nth (c_res cl) rs rsdummy) <> KClosed
-  /\ (classify (rs_kind (nth (c_res cl) rs rsdummy)) (c_op cl) = CRead -> rs_timed (nth (c_res cl) rs rsdummy) = false).
+  classify (rs_kind (nth (c_res cl) rs rsdummy)) (c_op cl) = CRead -> rs_timed (nth (c_res cl) rs rsdummy) = false.
 
 Variable total : nat -> Z.
 Hypothesis Htotal : forall r, feedable (rs_kind (nth r rs rsdummy)) (rs_eof (nth r rs rsdummy)) = false -> total r = 0.
@@ -548,8 +536,7 @@ Hypothesis Hnd : NoDup (map cs_tok cs).
 Hypothesis Hpriv : private cs = true.
 Hypothesis Hcalls : forall c cl, In c cs -> In cl (cs_prog c) -> (c_res cl < length rs)%nat /\ 1 <= c_len cl.
 Hypothesis Hnodef : forall c cl, In c cs -> In cl (cs_prog c) -> cs_co c = true ->
-  rs_kind (nth (c_res cl) rs rsdummy) <> KClosed
-  /\ (classify (rs_kind (nth (c_res cl) rs rsdummy)) (c_op cl) = CRead -> rs_timed (nth (c_res cl) rs rsdummy) = false).
+  classify (rs_kind (nth (c_res cl) rs rsdummy)) (c_op cl) = CRead -> rs_timed (nth (c_res cl) rs rsdummy) = false.
 Variable total : nat -> Z.
 Hypothesis Htotal : forall r, feedable (rs_kind (nth r rs rsdummy)) (rs_eof (nth r rs rsdummy)) = false -> total r = 0.
 
@@ -696,7 +683,7 @@ Proof.
   assert (Hin : In cl (cs_prog c)).
   { rewrite G1. unfold todo, pending. rewrite Hst. apply in_or_app; right; simpl; auto. }
   destruct (Hcalls c cl Hcin Hin) as [Hrlt _].
-  destruct (Hnodef c cl Hcin Hin) as [_ Hn]; [congruence|].
+  assert (Hn := Hnodef c cl Hcin Hin ltac:(congruence)).
   destruct (nth_error_lt_some rs (c_res cl) Hrlt) as [sp Hsp].
   assert (Hrlt' : (c_res cl < length (s_res st))%nat) by (rewrite (i_rlen _ _ _ _ _ _ HI); auto).
   destruct (nth_error_lt_some (s_res st) _ Hrlt') as [x Hx].
